@@ -867,6 +867,8 @@ def _action_case(arg):
         try:
             node = C09._nav(root.a, path).f
             st = node.a.value.f if node.a.__class__ is ast.Starred else node
+            if st.parent is not None and st.parent.a.__class__ is ast.MatchValue and not getattr(st.pars(), 'n', 0) and not tgtpars and '(' not in psrc:
+                st = st.parent          # parentheses written around the value of a MatchValue belong to the pattern (CPython's and, since 58a4705, pfst's attribution)
             res['final'] = {'n': getattr(st.pars(), 'n', 0), 'ptup': node.is_parenthesized_tuple(), 'kind': node.a.__class__.__name__}
             try:
                 ast.parse(root.src)
